@@ -117,6 +117,8 @@ def doc_worker(kp, job):
     exp = [(ln, m) for ln, ci, m, ht in placed if ht in ('**kern', '**root') and (m in MUST_REJECT or docs.kern_rejects(kp, m))]
     base = [(e.line, e.encoding) for e in rerrs]
     got = [(e.line, e.encoding) for e in errs]
+    if base:
+        viol.append(('one-error-per-cell', f'well-formed cells are reported as errors in the undamaged document: {base[:3]}', {'text': clean}))
     if sorted(got) != sorted(exp + base):
         viol.append(('one-error-per-cell', f'errors reported {got}, malformed kern cells {exp}', w))
     # every other token exactly as without the damage
